@@ -1003,7 +1003,9 @@ impl<T: PackedInt> IntVec<T> {
         }
 
         // 🚀 ADVANCED PRIORITY: Check for sorted sequences first for optimal compression
-        let is_sorted = Self::fast_sorted_check(values);
+        // Delta encoding needs every consecutive pair to be ordered; the sampled check (every
+        // len/16-th element) accepted sequences that are unsorted between the samples.
+        let is_sorted = values.windows(2).all(|w| w[0] <= w[1]);
         
         if is_sorted && len >= 4 {
             // 🚀 UNIFORM DELTA DETECTION: Check for identical deltas (like [0,1,2,3,...])
